@@ -267,6 +267,7 @@ def execute(root, proj, cfg, ops):
     w, sim, model = c.w, c.sim, proj.model
     conflict = true_conflict(model, proj.backend)
     configured = False
+    killed_before = False
     from_scratch = True     # the next build starts with no objects
     try:
         for op in ops:
@@ -274,15 +275,24 @@ def execute(root, proj, cfg, ops):
                 break
             k = op[0]
             if k == 'configure':
+                if len(op) == 1 and killed_before:
+                    # the accept/reject oracle is about the script, not about
+                    # recovery from a killed run (that is C10, which allows a
+                    # visible failure): start from an empty build directory
+                    import shutil
+                    shutil.rmtree(w.build, ignore_errors=True)
+                    os.mkdir(w.build)
+                    W.stamp(w.build, w.next_tick())
+                    killed_before = False
                 r = sim.configure(fault=op[1] if len(op) > 1 else None)
                 c.trace.append(['configure', r.status,
                                 bool(op[1]) if len(op) > 1 else False])
                 if not c.contained('configure', r):
                     break
                 if len(op) > 1 and op[1]:
-                    c.count('fired.kill' if any(i.get('fired')
-                                                for i in r.inv)
-                            else 'kill_not_fired')
+                    fired = any(i.get('fired') for i in r.inv)
+                    c.count('fired.kill' if fired else 'kill_not_fired')
+                    killed_before = killed_before or fired or not r.ok
                     continue
                 if conflict and r.ok:
                     c.vio('accept-reject', 'the script contains a conflict '
